@@ -2515,7 +2515,7 @@ def lgdt(info, a):
     return e
 
 def bittest_get(a, b):
-    if isinstance(a, ExprId):
+    if not isinstance(a, ExprMem):
         off_bit = ExprOp('&', b, ExprInt_from(a, a.get_size() - 1))
         d = a
         #d = ExprOp('>>', a, off_bit)
